@@ -32,8 +32,13 @@ theorem GenTie_translated :
     ["OctaveDown", "OctaveUp", "OctaveReset", "SemitoneDown", "SemitoneUp", "SemitoneReset", "MappingDown",
       "MappingUp", "MappingReset", "ChannelDown", "ChannelUp", "ChannelReset", "CCLearningOn", "CCLearningOff", "Panic",
       "checkDoubleActions", "NoteOn", "NoteOff", "AnalogNoteOn", "AnalogNoteOff", "checkExitSequence",
-      "handleKEYEvent"].all (fun n => decide (n ∈ Body.translated)) = true := by
+      "handleKEYEvent", "Multinote"].all (fun n => decide (n ∈ Body.translated)) = true := by
   decide
+
+/-- `Multinote` (device.go), translated from the source: the pressed notes of the tracker, sorted (`sort.Ints` is the model's
+    `sortInts`), differenced against the lowest; none or one pressed note disengages -/
+theorem GenTie_multinote (d : Dev) : Body.Multinote (toG d) = toG d.multinote := by
+  rw [Multinote_eq, toG_multinote]
 
 /-- the dispatch table `actionsPress` and every method it names (`Panic`, `MappingUp/Down`, `OctaveUp/Down`,
     `SemitoneUp/Down`, `ChannelUp/Down`, `CCLearningOn`; `Multinote` does nothing on press) -/
